@@ -8,8 +8,11 @@ import Cascette.Proofs.ManifestBits
 import Cascette.Proofs.ManifestSer
 import Cascette.Proofs.ManifestBuilder
 import Cascette.Proofs.ManifestQuery
+import Cascette.Proofs.ManifestDownload
+import Cascette.Proofs.ManifestExt
 namespace Cascette.Props.C19
 open Cascette Cascette.Model.Manifest Cascette.Proofs.Manifest
+open Cascette.Model.Serial Cascette.Model.ManifestExt
 
 /-! ### the on-disk bit -/
 
@@ -267,6 +270,198 @@ theorem duplicate_name_outside_spec :
     Spec.TagSets.run (Spec.TagSets.SState.empty (α := IEntry))
       [.addTag [0x57] 1, .addTag [0x57] 1] = none := by decide
 
+/-! ### whole builder programs (download builder) -/
+
+/-- `download_builder_refines_sets`, program level, for the `DownloadManifestBuilder` model. For
+EVERY program over its eleven operations — add tag / add file (40-bit size guard) / associate /
+dissociate / remove file (the running-output-position loop) / remove tag (`Vec::remove` + REBUILD
+of `tag_name_to_index`) and the setters `with_checksums`, `with_flags`, `with_base_priority`,
+`set_file_checksum`, `set_file_flags`, in any order and length, with accepted or rejected
+arguments, started from `DownloadManifestBuilder::new(v)` for any accepted version — whose
+abstract program (`specProg`: the setters and the rejected oversized `add_file`s dropped, the
+rest one to one) stays inside the specification's domain (no second `add_tag` of a live name),
+the builder model (i) keeps every mask at exactly `⌈n/8⌉` bytes with no bit at or beyond `n`,
+keeps live names distinct and the (rebuilt) name map exact, and (ii) its abstraction — files as
+(key, size, priority), per tag the name, type and the membership vector read with `has_file` — is
+exactly the state `Spec.TagSets.run` computes. In particular no setter disturbs a mask. -/
+theorem download_builder_refines_sets (v : Nat) (b0 : DBuilder) (hv : DBuilder.new v = .ok b0)
+    (ops : List DOp) (s : Spec.TagSets.SState DF)
+    (h : Spec.TagSets.run Spec.TagSets.SState.empty (specProg ops) = some s) :
+    DInv (drun b0 ops) ∧ absD (drun b0 ops) = s := by
+  obtain ⟨hI, ha⟩ := dinv_new v b0 hv
+  exact drun_refines ops b0 hI s (by rw [ha]; exact h)
+
+/-- `mask_len_inv_download`: after every such program each mask has `entry_count.div_ceil(8)`
+bytes and no stale bit, so the mask check of `validate()` / `build()` passes. -/
+theorem mask_len_inv_download (v : Nat) (b0 : DBuilder) (hv : DBuilder.new v = .ok b0)
+    (ops : List DOp) (s : Spec.TagSets.SState DF)
+    (h : Spec.TagSets.run Spec.TagSets.SState.empty (specProg ops) = some s) :
+    (∀ t ∈ (drun b0 ops).tags,
+      t.mask.length = maskSize (drun b0 ops).entries.length ∧
+      ∀ j, (drun b0 ops).entries.length ≤ j → hasFile t.mask j = false) ∧
+    (drun b0 ops).tags.all (fun t => t.mask.length == maskSize (drun b0 ops).entries.length) = true := by
+  have inv := (download_builder_refines_sets v b0 hv ops s h).1
+  refine ⟨fun t ht => ⟨(inv.masks t ht).len, (inv.masks t ht).clean⟩, ?_⟩
+  rw [List.all_eq_true]
+  intro t ht
+  simpa using (inv.masks t ht).len
+
+/-- the setters alone (any sequence of them, accepted or rejected) never change a tag, a mask,
+the name map or the (key, size, priority) of a file. -/
+theorem download_setters_keep_tags (b : DBuilder) (hI : DInv b) (op : DOp) (hop : op.spec = none)
+    (hadd : ∀ k sz p, op ≠ .addFile k sz p) :
+    DInv (dstep b op) ∧ absD (dstep b op) = absD b := setter_refines b hI op hop hadd
+
+/-- Counter-witness for the download builder (duplicate live name), kernel-checked on the model,
+replayed on the real code by corpus/C19/dup-tag-name-download.case. KNOWN FINDING
+`tag-set-dupname`. -/
+theorem duplicate_name_shadows_witness_download :
+    (match DBuilder.new 1 with
+     | .error _ => [98]
+     | .ok b0 =>
+       match (drun b0 [.addTag [0x57] 1, .addTag [0x57] 1, .addFile (List.replicate 16 0) 10 0,
+                       .assoc 0 [0x57]]).build with
+       | .ok m => (m.byTag [0x57]).map (·.1)
+       | .error _ => [99]) = [] ∧
+    Spec.TagSets.run (Spec.TagSets.SState.empty (α := DF))
+      (specProg [.addTag [0x57] 1, .addTag [0x57] 1]) = none := by decide
+
+/-! ### size manifest builder (whole builder, header and entry serialisation via the C08 model) -/
+
+/-- `size_builder_refines_sets`. For EVERY program of the `SizeManifestBuilder` model (the four
+configuration setters, `add_tag`, `tag_file` by tag index — accepted or panicking —, `add_entry`,
+any order and length) whose `build` succeeds: the manifest has one tag per `add_tag` in order
+with its name and type, every mask has exactly `⌈n/8⌉` bytes, file `i < n` is a member of tag
+`ti` exactly when the program made an accepted `tag_file(ti, i)` call (calls naming files `≥ n`
+are dropped or ignored by every query), the entries carry the added esizes in order, and the
+header's `total_size` is their sum (the wrapping `u64` sum of the release build). -/
+theorem size_builder_refines_sets (ops : List SOp) (f : SFile)
+    (h : (srun SBuilder.new ops).build = .ok f) :
+    let s := sspecRun SSpec.empty ops
+    f.tags.map (fun t => (t.name, t.typ)) = s.names ∧
+    f.entries.map (·.esize) = s.sizes ∧
+    f.total = s.sizes.sum % 2 ^ 64 ∧
+    ∀ ti t, f.tags[ti]? = some t →
+      t.mask.length = maskSize f.entries.length ∧
+      ∀ i, i < f.entries.length → hasFile t.mask i = s.pairs.contains (ti, i) :=
+  sbuild_refines ops f h
+
+/-- `parse_build_size`. Whenever `build` succeeds on a program whose tag names are NUL-free valid
+UTF-8 with a known tag type and whose esizes are `u64`s (the Rust parameter types), the manifest
+passes `SizeManifest::validate`, and parsing its serialisation (header V1 with esize width 1–8 or
+V2 with the 40-bit total, tags, variable-width entries; any trailing bytes) gives back exactly the
+built manifest — so the re-parsed manifest reports the memberships and the total of
+`size_builder_refines_sets`. (Round trip of the value: C08's `parseSFile_ser`, imported.) -/
+theorem parse_build_size (ops : List SOp) (f : SFile)
+    (h : (srun SBuilder.new ops).build = .ok f)
+    (hnames : ∀ p ∈ (sspecRun SSpec.empty ops).names,
+      (0 : Byte) ∉ p.1 ∧ validUtf8 p.1 = true ∧ validType p.2 = true)
+    (hu64 : ∀ e ∈ (sspecRun SSpec.empty ops).sizes, e < 2 ^ 64) (trailing : Bytes) :
+    buildSFile f = some (serSFile f) ∧ parseSFile (serSFile f ++ trailing) = some f := by
+  have hI := srun_inv ops SBuilder.new SSpec.empty sinv_new
+  have hwf : Cascette.Proofs.Serial.SWf f := by
+    apply sbuild_wf _ f h
+    · intro t ht
+      exact hnames (t.name, t.typ) (by rw [← hI.names]; exact List.mem_map_of_mem (f := fun t => (t.name, t.typ)) ht)
+    · intro e he
+      exact hu64 e.esize (by rw [← hI.sizes]; exact List.mem_map_of_mem (f := (·.esize)) he)
+  refine ⟨?_, Cascette.Proofs.Serial.parseSFile_ser f hwf trailing⟩
+  unfold buildSFile
+  rw [Cascette.Proofs.Serial.sfileValid_of_wf f hwf, if_pos rfl]
+
+/-- size totals: when the esizes do not overflow a `u64` the header total IS their sum, and a V2
+manifest is only built when that sum fits the 40-bit field. -/
+theorem size_total_eq_sum (ops : List SOp) (f : SFile)
+    (h : (srun SBuilder.new ops).build = .ok f)
+    (hsum : (sspecRun SSpec.empty ops).sizes.sum < 2 ^ 64) :
+    f.total = (sspecRun SSpec.empty ops).sizes.sum ∧ (f.version = 2 → f.total ≤ 0xFFFFFFFFFF) := by
+  have hb := build_ok _ _ h
+  refine ⟨?_, fun hv => hb.total40 (by rw [← hb.version.1]; exact hv)⟩
+  rw [(sbuild_refines ops f h).2.2.1]
+  exact Nat.mod_eq_of_lt hsum
+
+/-- Counter-witness to "the size total is the sum of the esizes" at full strength (no bound on the
+sum), kernel-checked on the model and replayed on the real code by
+corpus/C19/size-total-u64-wrap.case: two V1 entries (esize width 8) of `2^63` each build,
+serialise and parse with `total_size = 0`. Hence the hypothesis of `size_total_eq_sum`.
+KNOWN FINDING `size-total-u64-wrap`. -/
+theorem size_total_wraps_witness :
+    (match (srun SBuilder.new [.setVersion 1, .setEsizeBytes 8,
+        .addEntry (List.replicate 9 1) 9223372036854775808,
+        .addEntry (List.replicate 9 2) 9223372036854775808]).build with
+     | .ok f => f.total == 0 && (f.entries.map (·.esize)).sum == 18446744073709551616 &&
+                (parseSFile (serSFile f) == some f)
+     | .error _ => false) = true := by decide +kernel
+
+/-! ### UTF-8 validation of names in the parsers -/
+
+/-- `utf8_parse_install`: on the serialisation of ANY well-formed install manifest value (names
+NUL-free byte strings, not assumed to be UTF-8) the parser AS WRITTEN — `String::from_utf8` right
+after each NUL-terminated read — accepts iff every tag name and every path is well-formed UTF-8
+(`validUtf8`: the Unicode table 3-7 automaton), and then returns the manifest unchanged. -/
+theorem utf8_parse_install (m : IManifest) (h : IManifestWf m) (trailing : Bytes) :
+    parseInstallV (serInstall m ++ trailing) =
+      if (m.tags.all fun t => validUtf8 t.name) && (m.entries.all fun e => validUtf8 e.path)
+      then some m else none := by
+  rw [parseInstallV_eq]
+  unfold parseInstallU
+  rw [parseInstall_ser m h trailing]
+  rfl
+
+/-- `utf8_parse_download`: the same for the download parser (tag names are its only strings). -/
+theorem utf8_parse_download (m : DManifest) (h : DManifestWf m) (trailing : Bytes) :
+    parseDownloadV (serDownload m ++ trailing) =
+      if (m.tags.all fun t => validUtf8 t.name) then some m else none := by
+  rw [parseDownloadV_eq, parseDownload_ser m h trailing]
+
+/-- conversely, on ARBITRARY input: whatever the install parser accepts has only NUL-free,
+well-formed UTF-8 tag names and paths (and is a well-formed manifest). -/
+theorem utf8_parse_install_accepts_only_valid (bs : Bytes) (m : IManifest)
+    (h : parseInstallV bs = some m) :
+    (∀ t ∈ m.tags, validUtf8 t.name = true ∧ (0 : Byte) ∉ t.name) ∧
+    (∀ e ∈ m.entries, validUtf8 e.path = true ∧ (0 : Byte) ∉ e.path) := by
+  rw [parseInstallV_eq] at h
+  unfold parseInstallU at h
+  cases hp : parseInstall bs with
+  | none => rw [hp] at h; cases h
+  | some m' =>
+    rw [hp] at h
+    simp only at h
+    split at h
+    · rename_i hok
+      simp only [Option.some.injEq] at h
+      subst h
+      have hwf := (Cascette.Proofs.Serial.parseInstall_inv hp).1
+      unfold installNamesOk at hok
+      rw [Bool.and_eq_true, List.all_eq_true, List.all_eq_true] at hok
+      exact ⟨fun t ht => ⟨hok.1 t ht, (hwf.tags t ht).name⟩, fun e he => ⟨hok.2 e he, (hwf.entries e he).path⟩⟩
+    · cases h
+
+/-- …and whatever the download parser accepts has only well-formed UTF-8 tag names. -/
+theorem utf8_parse_download_accepts_only_valid (bs : Bytes) (m : DManifest)
+    (h : parseDownloadV bs = some m) : ∀ t ∈ m.tags, validUtf8 t.name = true := by
+  rw [parseDownloadV_eq] at h
+  cases hp : parseDownload bs with
+  | none => rw [hp] at h; cases h
+  | some m' =>
+    rw [hp] at h
+    simp only at h
+    split at h
+    · rename_i hok
+      simp only [Option.some.injEq] at h
+      subst h
+      exact List.all_eq_true.mp hok
+    · cases h
+
+/-- kernel-checked samples of the automaton (TESTS): ASCII, 2/3/4-byte forms accepted; overlong
+`C0 80`, surrogate `ED A0 80`, above U+10FFFF `F4 90 80 80`, truncated `E2 82`, stray `80`
+rejected. -/
+theorem utf8_samples :
+    validUtf8 [0x57, 0xC3, 0xA9, 0xE2, 0x82, 0xAC, 0xF0, 0x9F, 0x98, 0x80] = true ∧
+    validUtf8 [0xC0, 0x80] = false ∧ validUtf8 [0xED, 0xA0, 0x80] = false ∧
+    validUtf8 [0xF4, 0x90, 0x80, 0x80] = false ∧ validUtf8 [0xE2, 0x82] = false ∧
+    validUtf8 [0x80] = false := by decide
+
 /-! ### non-vacuity -/
 
 example : MaskOk 9 [0x80, 0x80] := ⟨rfl, fun j hj => by
@@ -283,5 +478,27 @@ example : memOf 8 (dlRemoveMask [0x80, 0x80] 3 8) = [true, false, false, false, 
 crosses the byte boundary -/
 example : (Spec.TagSets.run (Spec.TagSets.SState.empty (α := Nat))
     [.addTag [1] 1, .addFile 0, .addFile 1, .addTag [2] 2, .assoc 1 [2], .assoc 0 [1], .removeFile 0]).isSome = true := by decide
+
+/-- a download program inside the domain that uses every operation: setters between the tag/file
+operations, a rejected oversized file, a removal across the byte boundary, a tag removal followed
+by a by-name association (exercises the rebuilt name map) -/
+example : (Spec.TagSets.run (Spec.TagSets.SState.empty (α := DF))
+    (specProg [.withChecksums true, .addTag [1] 1, .addFile [7] 5 (-3), .withFlags 2, .addFile [8] (max40 + 1) 0,
+      .addTag [2] 2, .addFile [9] max40 127, .setChecksum 0 77, .assoc 1 [2], .setFlags 1 [1, 2],
+      .removeTag [1], .assoc 0 [2], .withBase 0, .dissoc 1 [2], .removeFile 0])).isSome = true := by decide
+
+/-- a size-builder program whose build succeeds (V1, 2-byte esizes, tag_file beyond the entry
+count and with a bad tag index, tag_count setter overridden by add_tag) -/
+example : (match (srun SBuilder.new [.setVersion 1, .setEsizeBytes 2, .setTagCount 7, .addTag [0x41] 1,
+    .addEntry (List.replicate 9 1) 65535, .tagFile 0 0, .tagFile 0 9, .tagFile 3 0, .addTag [0x42] 2,
+    .addEntry (List.replicate 9 2) 5, .tagFile 1 1]).build with
+  | .ok f => (f.total, f.tags.map (·.mask)) == (65540, [[0x80], [0x40]])
+  | .error _ => false) = true := by decide
+
+/-- a well-formed install manifest with a non-UTF-8 tag name: it serialises, and the parser as
+written rejects it (hypothesis of `utf8_parse_install` satisfiable with the `else` branch) -/
+example : parseInstallV (serInstall ⟨1, none, [⟨[0xC0, 0x80], 1, []⟩], []⟩) = none ∧
+    parseInstall (serInstall ⟨1, none, [⟨[0xC0, 0x80], 1, []⟩], []⟩) =
+      some ⟨1, none, [⟨[0xC0, 0x80], 1, []⟩], []⟩ := by decide
 
 end Cascette.Props.C19
